@@ -187,6 +187,7 @@ func (c C14) Run(t *tape.Tape, opt core.RunOpt) (res core.Result) {
 	gen := &workload.Gen{T: t, GoExtends: zooMode}
 	var good []*c14Load
 	var ops []c14Op
+	var retry []workload.Fragment // valid fragments of the document refused last
 	var sigParts []string
 	nOps := 2 + t.Draw(4)
 	failedBefore := false
@@ -232,9 +233,18 @@ func (c C14) Run(t *tape.Tape, opt core.RunOpt) (res core.Result) {
 		if api != "AddTypes" {
 			frags = frags[:0]
 			gen.ResetDoc()
-			for i := 0; i < nfr; i++ {
-				frags = append(frags, gen.Valid())
+			if len(retry) > 0 && t.Bool(1, 2) {
+				// the document that was refused last time, corrected (the poison
+				// taken out) and submitted again: the names it defines were never
+				// loaded, whatever the refused load did with them
+				frags = append(frags, retry...)
+				res.Count("probe_corrected_document_resubmitted", 1)
+			} else {
+				for i := 0; i < nfr; i++ {
+					frags = append(frags, gen.Valid())
+				}
 			}
+			retry = nil
 			if poisoned {
 				p := gen.Poison()
 				pos := t.Draw(len(frags) + 1)
@@ -484,6 +494,14 @@ func (c C14) Run(t *tape.Tape, opt core.RunOpt) (res core.Result) {
 				return
 			}
 			failedBefore = true
+			if api != "AddTypes" && poisonKind != "" {
+				retry = retry[:0]
+				for _, f := range frags {
+					if workload.PoisonClass(f.Kind) == "" {
+						retry = append(retry, f)
+					}
+				}
+			}
 		} else {
 			op.Outcome = "ok"
 			res.Count("probe_successful_loads", 1)
